@@ -98,6 +98,18 @@ func __obsNil[T any](k int, v T) T {
 	return v
 }
 
+// __obsNilR: the same, observed as a value of the function's result type R
+func __obsNilR[R any](k int, v R) R {
+	o := get(k)
+	o.Reached++
+	var zero R
+	isIface := reflect.TypeOf(&zero).Elem().Kind() == reflect.Interface
+	if (isIface && any(v) != nil) || (!isIface && !isNil(any(v))) {
+		o.contra("returned %T value is %v (not nil)", any(v), any(v))
+	}
+	return v
+}
+
 // __dup: the diagnostic claims both operands are the same value
 func __dup[T any, R any](k int, a, b T, f func(T, T) R) R {
 	o := get(k)
@@ -110,10 +122,18 @@ func __dup[T any, R any](k int, a, b T, f func(T, T) R) R {
 
 // sameValue: identical values; a NaN is the same value as itself (same variable read twice)
 func sameValue(a, b any) bool {
+	va, vb := reflect.ValueOf(a), reflect.ValueOf(b)
+	if va.IsValid() && vb.IsValid() && va.Kind() == vb.Kind() {
+		// reference kinds are the same value only if they are the same reference
+		// (&T{1} and &T{1} are deeply equal and still two different pointers)
+		switch va.Kind() {
+		case reflect.Ptr, reflect.UnsafePointer, reflect.Chan, reflect.Map:
+			return va.Pointer() == vb.Pointer()
+		}
+	}
 	if reflect.DeepEqual(a, b) {
 		return true
 	}
-	va, vb := reflect.ValueOf(a), reflect.ValueOf(b)
 	if va.IsValid() && vb.IsValid() && va.Kind() == vb.Kind() && (va.Kind() == reflect.Float64 || va.Kind() == reflect.Float32) {
 		return va.Float() != va.Float() && vb.Float() != vb.Float()
 	}
@@ -299,11 +319,38 @@ func cmdS12(args []string) {
 							target = r
 						}
 					}
+					idx := 0
+					if m := nilValRE.FindStringSubmatch(w.Text); m != nil {
+						for ri, r := range ret.Results {
+							if text(r) == m[1] {
+								target, idx = r, ri
+								break
+							}
+						}
+					}
 					if target == nil {
 						target = ret.Results[0]
 					}
+					// the claim is about what the function returns: the value converted to the result type
+					// (a nil pointer returned as an error is not a nil error)
+					var sig *types.Signature
+					if o := p.Info.Defs[fd.Name]; o != nil {
+						sig, _ = o.Type().(*types.Signature)
+					}
+					ast.Inspect(fd, func(n ast.Node) bool {
+						if lit, ok := n.(*ast.FuncLit); ok && lit.Pos() <= ret.Pos() && ret.End() <= lit.End() {
+							if ls, ok := p.Info.TypeOf(lit).(*types.Signature); ok {
+								sig = ls
+							}
+						}
+						return true
+					})
 					claimKind = "nil"
-					edits = append(edits, edit{off(target.Pos()), off(target.End()), fmt.Sprintf("__obsNil(%d, %s)", k, text(target))})
+					if sig != nil && sig.Results().Len() == len(ret.Results) {
+						edits = append(edits, edit{off(target.Pos()), off(target.End()), fmt.Sprintf("__obsNilR[%s](%d, %s)", types.TypeString(sig.Results().At(idx).Type(), qual), k, text(target))})
+					} else {
+						edits = append(edits, edit{off(target.Pos()), off(target.End()), fmt.Sprintf("__obsNil(%d, %s)", k, text(target))})
+					}
 				case strings.HasPrefix(w.Text, "suspicious identical LHS and RHS"):
 					var be *ast.BinaryExpr
 					for _, n := range nodesAt {
@@ -433,7 +480,7 @@ func cmdS12(args []string) {
 	imp := &mapImporter{m: impMap, fallback: importer.ForCompiler(token.NewFileSet(), "gc", nil)}
 	for iter := 0; iter < 6; iter++ {
 		var b strings.Builder
-		b.WriteString("package main\n\nimport (\n\t\"bytes\"\n\t\"fmt\"\n\t\"strings\"\n\t\"time\"\n)\n\nvar _ = bytes.Index\nvar _ = fmt.Sprint\nvar _ = strings.Index\nvar _ = time.Now\n\n")
+		b.WriteString("package main\n\nimport (\n\t\"bytes\"\n\t\"flag\"\n\t\"fmt\"\n\t\"strings\"\n\t\"time\"\n)\n\nvar _ = bytes.Index\nvar _ = flag.Usage\nvar _ = fmt.Sprint\nvar _ = strings.Index\nvar _ = time.Now\n\n")
 		for _, r := range insts {
 			if !dropped[r.name] {
 				b.WriteString(r.src + "\n\n")
@@ -505,6 +552,8 @@ func cmdS12(args []string) {
 	out.Emit(cnt.Stat())
 	out.Emit(map[string]interface{}{"kind": "done"})
 }
+
+var nilValRE = regexp.MustCompile(`replace (.+) with nil$`)
 
 var helperCopyRE = regexp.MustCompile(`^(S\d+)_h\w*?__ck(\d+)$`)
 
